@@ -16,6 +16,8 @@ pub enum Top {
     F(BoxF),
     R(BoxR),
     S(BoxS),
+    /// a group driven by an operation history (groups.rs)
+    G(Box<dyn crate::groups::GroupDyn>),
 }
 
 /// Array lengths that are instantiated (const generics need a closed set).
